@@ -51,7 +51,9 @@ _reg("C19", engine="pbc", level="exploration",
            "<= plain distance and inverse-flag agreement.  A run is non-trivial when at least one step needed a "
            "non-zero image shift; distinct = distinct sequences of (operation, outcome, image-shift vector)."),
      components={"Residue.distance_to": REAL, "Residue/AtomGro": REAL},
-     schedule_dimension="none (pure function of two points and a matrix; the harness contributes seeded generation and replay only)",
+     schedule_dimension=("as specified: none (a pure function of two points and a matrix).  As implemented it need not be: each run is a call "
+                         "HISTORY on two persistent residues and one box object (roles alternated, arguments re-used, module state "
+                         "carried inside a block), which is what exposes hidden state, argument corruption and aliasing"),
      probes=["nonzero_image", "triclinic", "far_outside", "inv_flag", "point_argument", "box_as_nested_lists", "box_as_integer_array"],
      assumptions=["separations within 1e-6 of an exact half box are skipped, as the property states",
                   "triclinic boxes: moderate skew only (off-diagonal <= 0.45 of the diagonal); only symmetry/shift invariance/inverse flag are asserted there"])
